@@ -53,10 +53,33 @@ for s in sorted(os.listdir('/verif/seeded')):
     if meta:
         meta['framework_result'] = dict(check=r.get('check'), tier=r.get('tier'), outcome=oc, first_finding=r.get('first', ''), note=note)
         json.dump(meta, open(f'{d}/meta.json', 'w'), indent=1)
-out = ["<!-- CATCH-MATRIX-BEGIN -->",
-       f"{len(rows)} seeded changes; quick tier of the property's own check against a scratch copy with the change applied: "
-       f"**{tot['caught']} caught, {tot['missed']} missed, {tot['other']} other (inconclusive / not run), {tot['neutral']} no longer behaviour-changing on the repaired tree**.",
-       "", "| seed | file(s) | clause broken (from the seed's meta.json) | re-confirmed on HEAD | own check, quick | first finding / note |", "|---|---|---|---|---|---|"] + rows + ["<!-- CATCH-MATRIX-END -->"]
+head_line = (f"{len(rows)} seeded changes; quick tier of the property's own check against a scratch copy with the change applied: "
+             f"**{tot['caught']} caught, {tot['missed']} missed, {tot['other']} other (inconclusive / not run), {tot['neutral']} no longer behaviour-changing on the repaired tree**.")
+table = [head_line, "", "| seed | file(s) | clause broken (from the seed's meta.json) | re-confirmed on HEAD | own check, quick | first finding / note |", "|---|---|---|---|---|---|"] + rows
+open('/verif/seeded/CATCH-MATRIX.md', 'w').write("# Which check catches which seeded change (written by mkcatchmatrix.py from RESULTS.tsv)\n\n" + "\n".join(table) + "\n")
+# DESIGN.md carries the totals, the per-round counts and every seed that is not caught by its own check (with the note)
+rounds = {}
+for s_ in sorted(os.listdir('/verif/seeded')):
+    if not os.path.exists(f'/verif/seeded/{s_}/patch.diff'):
+        continue
+    m = re.match(r'C\d\d-(?:r(\d)m|m|x)', s_)
+    rd = 'own regression seeds (x)' if '-x' in s_ else ('round ' + (m.group(1) or '1') if m else '?')
+    oc = R.get(s_, {}).get('outcome', 'not run')
+    if extra.get(s_, '').startswith('neutral'):
+        oc = 'n/a'
+    rounds.setdefault(rd, {}).setdefault(oc, 0)
+    rounds[rd][oc] += 1
+out = ["<!-- CATCH-MATRIX-BEGIN -->", head_line + " Full table: `seeded/CATCH-MATRIX.md`; raw outcomes: `seeded/RESULTS.tsv`.", "",
+       "| round | caught | missed | n/a (neutral on the repaired tree) | other |", "|---|---|---|---|---|"]
+for rd in sorted(rounds):
+    c = rounds[rd]
+    out.append(f"| {rd} | {c.get('caught',0)} | {c.get('missed',0)} | {c.get('n/a',0)} | {sum(v for k,v in c.items() if k not in ('caught','missed','n/a'))} |")
+out += ["", "Seeds not reported by their own property's quick check on the final tree:", "", "| seed | clause broken | note |", "|---|---|---|"]
+for row in rows:
+    f = [x.strip() for x in row.strip('|').split('|')]
+    if f[4] != 'caught':
+        out.append(f"| {f[0]} | {f[2]} | {f[4]}: {f[5]} |")
+out.append("<!-- CATCH-MATRIX-END -->")
 p = '/verif/DESIGN.md'
 s = open(p).read()
 if '<!-- CATCH-MATRIX-BEGIN -->' in s:
